@@ -13,7 +13,7 @@ MANIFEST = dict(
          "atomicity meta-theorem (one atomic action between call and return => linearizable, real-time order respected, any threads/schedule) instantiated for subjects, its premise checked on the regenerated lock skeletons of the Go methods. "
          "Tie: exhaustive operation sequences (length <= 5 quick / 6 thorough) x 5 kinds x buffer sizes, model vs real subject (traces, drops, CountObservers/HasObserver/IsClosed/HasThrown/IsCompleted after every step). "
          "Search/validation: 2-4 goroutine histories with call/return stamps checked linearizable against the executable model by brute force; scripted schedules for the known deviations."
-         " Scripted schedule midunsub: a Subscribe to a unicast subject while the current subscriber's Unsubscribe is in flight (parked in a teardown of the subscriber's own) - either order of the two calls explains the history; judged by the linearizability search. Subjects subscribed with a ready-made Subscriber that is closed or closes itself in its first callback (RoModel/SubjectsX.lean: reduction to Subscribe ; Unsubscribe with the refused deliveries handed to the dropped hook; subjx_invariant, subjx_unicast_one_at_a_time, dead_subscriber_never_registered; kind=subjx, equality on every case; the unicast self-deadlock derived there is a listed known finding).",
+         " Scripted schedule midunsub: a Subscribe to a unicast subject while the current subscriber's Unsubscribe is in flight (parked in a teardown of the subscriber's own) - either order of the two calls explains the history; judged by the linearizability search. Subjects subscribed with a ready-made Subscriber that is closed or closes itself in its first callback (RoModel/SubjectsX.lean: reduction to Subscribe ; Unsubscribe with the refused deliveries handed to the dropped hook; subjx_invariant, subjx_unicast_one_at_a_time, dead_subscriber_never_registered; kind=subjx, equality on every case; the unicast self-deadlock derived there was repaired in /repo 5f819fc).",
     technique="Lean 4 proof (invariant + per-subscriber simulation, induction over operation sequences; Herlihy-Wing meta-theorem over an operational model) + regenerated fact table decided by the kernel + differential correspondence + brute-force linearizability search on recorded histories",
     ref='5/C10')
 
@@ -97,9 +97,9 @@ def check(ctx):
 
     # ---- subjects subscribed with a ready-made Subscriber (what pass-through operators hand upstream): already unsubscribed (X), or
     #      unsubscribing itself inside its first Next (Y) - reduced to the sequential model by the driver (Subscribe, then Unsubscribe at the
-    #      point where the subscriber closed; what was delivered to a closed subscriber goes to the dropped hook). Known class: the unicast
-    #      subject registers its teardown while holding s.mu, and that teardown takes s.mu: when the subscriber is closed by then the
-    #      teardown runs at once and Subscribe never returns (hang=<k>).
+    #      point where the subscriber closed; what was delivered to a closed subscriber goes to the dropped hook). On the pinned tree the unicast
+    #      subject registered its teardown while holding s.mu, and that teardown takes s.mu: with a subscriber closed by then the teardown ran
+    #      at once and Subscribe never returned (hang=<k>): repaired in /repo 5f819fc, reported again if it returns.
     xrows = R.run_kind(ctx, 'subjx', shards=4)
     hung = [(c, g, l) for c, g, l in xrows if R.parse_res(g).get('hang', '0') != '0' and 'op=unicast' in c]
     rest = [r for r in xrows if r not in hung]
